@@ -441,8 +441,18 @@ func DefaultCrash(c Case, cr Crash) Obs {
 	o.Evals = 1
 	key := ""
 	if i := strings.Index(cr.Stderr, "panic:"); i >= 0 {
-		if fr := RepoFrame(cr.Stderr[i:]); fr != "" {
+		// only the panicking goroutine's own stack (the first block of the dump) names the culprit
+		first := cr.Stderr[i:]
+		if j := strings.Index(first, "\ngoroutine "); j >= 0 {
+			if k := strings.Index(first[j+1:], "\n\n"); k >= 0 {
+				first = first[:j+1+k]
+			}
+		}
+		if fr := RepoFrame(first); fr != "" {
 			key = "crash:" + fr
+		} else if strings.Contains(first, "\nverif/") {
+			// a panic inside the harness itself (simulator, driver): a harness bug, never a verdict
+			key = "harness-crash:" + firstFatalLine(first)
 		}
 	}
 	if key == "" {
@@ -497,6 +507,13 @@ func (r *runner) report(results []*caseResult, wall time.Duration) int {
 	)
 	emit := func(cr *caseResult, v Violation) {
 		v.Key = NormKey(v.Key)
+		if strings.HasPrefix(v.Key, "harness-crash:") {
+			fmt.Printf("BROKEN property=%s the harness itself crashed in case %s: %s\n", ch.ID, cr.c.ID, v.Desc)
+			if exit == 0 {
+				exit = 2
+			}
+			return
+		}
 		if f := kf.Match(v.Key); f != nil {
 			nKnown[f.Key]++
 			return
